@@ -173,6 +173,10 @@ pub fn run_bin(opts: &BinOpts) -> BinRun {
     let mut cmd = Command::new(bin_path());
     cmd.args(&opts.args).current_dir(opts.cwd).stdin(Stdio::null()).stdout(Stdio::piped()).stderr(Stdio::piped());
     cmd.env_remove("RUST_LOG");
+    // A caller that needs the child's debug log asks for it explicitly.
+    if let Ok(level) = std::env::var("VERIF_CHILD_RUST_LOG") {
+        cmd.env("RUST_LOG", level);
+    }
     cmd.env("RUST_BACKTRACE", "0");
     if let Some(seed) = opts.hash_seed {
         cmd.env("LD_PRELOAD", shim_path()).env("VERIF_HASH_SEED", seed.to_string());
